@@ -71,11 +71,17 @@ Definition get_message (e : pte_entry) (pte : N) : descr_res :=
   end.
 
 (* ---- PTETable.get_entry: first match in table order ---- *)
-Fixpoint get_entry (tbl : list pte_entry) (pte : N) : option pte_entry :=
+(* [matches e pte] for each e in turn; the two hex strings and the reported test depend only on the PTE and
+   are computed once here (the code formats them again for every table entry - same values; equality with
+   the entry-by-entry form is Proofs/IlogFacts.get_entry_first_match) *)
+Fixpoint find_entry (h hclr : text) (rep : bool) (tbl : list pte_entry) : option pte_entry :=
   match tbl with
   | [] => None
-  | e :: t => if matches e pte then Some e else get_entry t pte
+  | e :: t => if pat_match (e_pat e) h || (rep && pat_match (e_pat e) hclr) then Some e
+              else find_entry h hclr rep t
   end.
+Definition get_entry (tbl : list pte_entry) (pte : N) : option pte_entry :=
+  find_entry (hexU 8 pte) (hexU 8 (N.ldiff pte ilog_REPORTED_MASK)) (is_reported_error_pte pte) tbl.
 
 Definition descr (tbl : list pte_entry) (pte : N) : descr_res :=
   match get_entry tbl pte with
